@@ -139,6 +139,26 @@ def run(C, R):
                                % (m['path'], 'panics' if path.exit == 'panic' else 'stays pending',
                                   path_cond(E, path)), '%s:%s' % (m['file'], m['line']),
                                {'trace': trace_summary(path)})
+            # R7: a future starts waiting (links its node and returns Pending) only when nobody owes it a wake-up:
+            # the mutex was observed locked, or - fair mode - somebody is queued ahead of it (the notified head)
+            for path in paths:
+                if path.exit != 'return' or poll_variant(E, path) != 'Pending':
+                    continue
+                parks = [e for e in path.events if e['k'] == 'qop' and e['op'] == 'add_front' and e['node'][0][0] == 'P']
+                if not parks:
+                    continue
+                locked = const_of(E, path.facts, ('init', (('P', 'self'), 'is_locked')))
+                fair = const_of(E, path.facts, ('init', (('P', 'self'), 'is_fair')))
+                nonempty = any(isinstance(k, tuple) and k and k[0] == 'qempty' and v == ('eq', 0)
+                               for k, v in path.facts.items())
+                if locked == 1 or (fair == 1 and nonempty):
+                    R.ok('C03.R7', '%s|parks: %s|%s' % (m['path'], 'mutex locked' if locked == 1 else
+                                                          'fair, somebody queued ahead', path_cond(E, path)))
+                else:
+                    R.fail('C03.R7', [m['path'], 'parks-while-mutex-free', path_cond(E, path)],
+                           '%s queues the future and returns Pending although the mutex is not known to be locked '
+                           '(and no earlier waiter is known to be queued in fair mode): nobody will wake it [%s]' % (
+                               m['path'], path_cond(E, path)), where(F, parks[0]), {'trace': trace_summary(path)})
             # R4 (state level): wakers taken are returned
             w3_waker_use(R, E, F, m, paths, 'C03.R4', strict=False)
             # R5: Pending => current waker stored
